@@ -145,6 +145,15 @@ func (u *vfC04Up) ServeDNS(ctx context.Context, ch *middleware.Chain) {
 				minTTL = 0 // expired signature: at most the floor, or not cached at all
 			}
 			resp.AuthenticatedData = true
+		case "cname-nodata":
+			// what an authority serving alias and target from one zone returns when the target lacks the type: the
+			// alias, and the zone's SOA for the negative part - whose lifetime is the SOA's negative TTL (RFC 2308)
+			resp.Answer = append(resp.Answer, &dns.CNAME{Hdr: dns.RR_Header{Name: q.Name, Rrtype: dns.TypeCNAME, Class: dns.ClassINET, Ttl: ttl}, Target: spec.Target})
+			resp.Ns = append(resp.Ns, &dns.SOA{Hdr: dns.RR_Header{Name: "example.org.", Rrtype: dns.TypeSOA, Class: dns.ClassINET, Ttl: spec.SOATTL}, Ns: "ns.example.org.", Mbox: "h.example.org.",
+				Serial: uint32(f.Idx), Refresh: 7200, Retry: 3600, Expire: 1209600, Minttl: spec.SOAMin})
+			use(ttl)
+			use(spec.SOATTL)
+			use(spec.SOAMin)
 		case "nx", "nodata":
 			if spec.Kind == "nx" {
 				resp.Rcode = dns.RcodeNameError
@@ -290,7 +299,7 @@ func vfC04Run(t *testing.T, dir string, c *vfC04Case) (violation string, stats m
 			case "block":
 				// only questions that are never the target of an alias chase: an internal call for them
 				// can only be a background refresh, never part of the client's own call stack
-				if n := c.Qs[st.Q].Name; n == "www.example.org." || n == "alias.example.org." {
+				if n := c.Qs[st.Q].Name; n == "www.example.org." || n == "alias.example.org." || n == "nodata-t.example.org." {
 					continue
 				}
 				up.mu.Lock()
@@ -367,7 +376,25 @@ func vfC04Run(t *testing.T, dir string, c *vfC04Case) (violation string, stats m
 			cacheServed := len(fetches) == before
 			if cacheServed {
 				stats["cache-served-replies"]++
+			} else {
+				// something was fetched for this reply: what it is composed into is a new stored entry for this question,
+				// and "never grows between hits on the same stored entry" starts over for it (a record of an older fetch
+				// may reappear in it through another entry, with that entry's own remaining lifetime)
+				pre := fmt.Sprintf("%s|%d|%v|", strings.ToLower(name), q.Qtype, st.CD)
+				for k := range lastTTL {
+					if strings.HasPrefix(k, pre) {
+						delete(lastTTL, k)
+					}
+				}
 			}
+			// which fetches this reply is composed of: the identity of "the same stored entry" for the never-grows clause
+			var comp []int
+			for _, rr := range append(append([]dns.RR{}, r.Msg.Answer...), r.Msg.Ns...) {
+				if i := vfC04FetchOf(rr); i > 0 {
+					comp = append(comp, i)
+				}
+			}
+			sort.Ints(comp)
 			for _, rr := range append(append([]dns.RR{}, r.Msg.Answer...), r.Msg.Ns...) {
 				if rr.Header().Rrtype == dns.TypeOPT {
 					continue
@@ -422,7 +449,7 @@ func vfC04Run(t *testing.T, dir string, c *vfC04Case) (violation string, stats m
 				}
 				// TTL never grows between hits on the same stored data
 				if fidx > 0 {
-					k := fmt.Sprintf("%s|%d|%v|%d|%s", strings.ToLower(name), q.Qtype, st.CD, fidx, strings.ToLower(vfCanonRR(rr, false)))
+					k := fmt.Sprintf("%s|%d|%v|%d|%v|%s", strings.ToLower(name), q.Qtype, st.CD, fidx, comp, strings.ToLower(vfCanonRR(rr, false)))
 					if prev, ok := lastTTL[k]; ok && rr.Header().Ttl > prev {
 						fail("step %d at t=%s: TTL of %s grew from %d to %d between hits on the same stored entry\nhistory:\n  %s", si, now, rr.String(), prev, rr.Header().Ttl, strings.Join(append(sample, line), "\n  "))
 						return
@@ -491,6 +518,9 @@ func vfC04GenCase(rt *rapid.T) *vfC04Case {
 		{Name: "nodata.example.org.", Qtype: dns.TypeA, Kind: "nodata", TTLs: []uint32{0}, SOATTL: rapid.SampledFrom([]uint32{3, 30, 300}).Draw(rt, "soattl2"), SOAMin: rapid.SampledFrom([]uint32{2, 10, 60}).Draw(rt, "soamin2"), Scope: -1},
 		{Name: "signed.example.org.", Qtype: dns.TypeA, Kind: "signed", TTLs: ttls("ttl.signed"), SigLeft: []int{rapid.SampledFrom([]int{-5, 2, 7, 20, 100, 1000000}).Draw(rt, "sigleft"), rapid.SampledFrom([]int{3, 50}).Draw(rt, "sigleft2")}, Scope: -1},
 		{Name: "geo.example.org.", Qtype: dns.TypeA, Kind: "a", TTLs: ttls("ttl.geo"), Scope: rapid.SampledFrom([]int{0, 16, 24}).Draw(rt, "geoscope")},
+		{Name: "aliasnd.example.org.", Qtype: dns.TypeA, Kind: "cname-nodata", Target: "nodata-t.example.org.", TTLs: []uint32{rapid.SampledFrom([]uint32{300, 3600}).Draw(rt, "ttl.aliasnd")},
+			SOATTL: rapid.SampledFrom([]uint32{300, 3600}).Draw(rt, "soattl3"), SOAMin: rapid.SampledFrom([]uint32{10, 60}).Draw(rt, "soamin3"), Scope: -1},
+		{Name: "nodata-t.example.org.", Qtype: dns.TypeA, Kind: "nodata", TTLs: []uint32{0}, SOATTL: 3600, SOAMin: 60, Scope: -1},
 	}
 	if rapid.IntRange(0, 3).Draw(rt, "lateprefetch") == 0 {
 		// scripted skeleton of a late background refresh, with generated timings: fetch, age into the
